@@ -204,6 +204,21 @@ def judge_write(name, out, model, src, texts_per_rec, fields, kinds):
     return None
 
 
+class _View:
+    """the saved register seen as the current one (for judge_write)"""
+
+    def __init__(self, model):
+        self.t = model.u
+        self.index_only = getattr(model, 'u_index_only', True)
+
+
+def judge_saved(name, out_u, model, src, texts, fields, kinds):
+    v = judge_write(name, out_u, _View(model), src, texts, fields, kinds)
+    if v is not None:
+        return ('saved-register:' + v[0], v[1], v[2])
+    return None
+
+
 def op_alphabet(fields, kinds):
     ops = list(tp.transform_ops(0))
     seen = set()
@@ -222,7 +237,7 @@ def run_history(name, f, data, mode, hist, fields, kinds, rows):
         if not model.enabled(op):
             return {'status': 'disabled'}
         try:
-            t, u = tp.apply_impl(t, u, op, fields, kinds)
+            t, u = tp.apply_impl(t, u, op, fields, kinds, f.buffer_type())
         except observe.ObserverError:
             raise
         except Exception as e:
@@ -230,11 +245,12 @@ def run_history(name, f, data, mode, hist, fields, kinds, rows):
         model.apply(op)
     try:
         out = tp.observe_impl(t, ('write',), fields, f.buffer_type())
+        out_u = tp.observe_impl(u, ('write',), fields, f.buffer_type()) if u is not None else None
     except observe.ObserverError:
         raise
     except Exception as e:
         return {'status': 'raises', 'op': ('write',), 'exc': e, 'model': model}
-    return {'status': 'ok', 'out': out, 'model': model, 't': t, 'u': u}
+    return {'status': 'ok', 'out': out, 'out_u': out_u, 'model': model, 't': t, 'u': u}
 
 
 def explore(res, name, eol, mode, depth, deadline):
@@ -267,6 +283,8 @@ def explore(res, name, eol, mode, depth, deadline):
                 res.outcome('raises:' + r['op'][0])
                 continue
             v = judge_write(name, r['out'], r['model'], src, texts, fields, kinds)
+            if v is None and r.get('out_u') is not None:
+                v = judge_saved(name, r['out_u'], r['model'], src, texts, fields, kinds)
             if v is not None:
                 res.fail(v[0], case, feats, expected=v[1], observed=v[2])
                 res.outcome('bad:' + v[0])
@@ -303,6 +321,8 @@ def replay_case(case):
                  'observed': repr(r['exc'])[:300], 'traceback': tb_string(r['exc'])}]
     if r['status'] == 'ok':
         v = judge_write(name, r['out'], r['model'], src, texts, fields, kinds)
+        if v is None and r.get('out_u') is not None:
+            v = judge_saved(name, r['out_u'], r['model'], src, texts, fields, kinds)
         if v is not None:
             return [{'kind': v[0], 'features': {'root': name}, 'expected': v[1], 'observed': v[2], 'traceback': None}]
     return []
